@@ -519,6 +519,15 @@ impl<'a> NNumReal<'a> {
     }
 }
 
+// ordering of any finite number relative to the infinite float `inf`
+fn cmp_finite_to_inf(inf: f64) -> Ordering {
+    if inf > 0.0 {
+        Ordering::Less
+    } else {
+        Ordering::Greater
+    }
+}
+
 fn to_nint_if_int(f: f64) -> Option<NInt> {
     if f == f.trunc() {
         f.to_bigint().map(NInt::Big)
@@ -553,6 +562,13 @@ impl<'a> PartialOrd for NNumReal<'a> {
             (NNumReal::Int(a), NNumReal::Float(b)) => cmp_nint_f64(a, b),
             (NNumReal::Float(a), NNumReal::Int(b)) => cmp_nint_f64(b, a).map(|ord| ord.reverse()),
             (NNumReal::Float(a), NNumReal::Float(b)) => a.partial_cmp(b),
+            // infinities have no exact rational but still compare with every rational
+            (NNumReal::Rational(_), NNumReal::Float(b)) if b.is_infinite() => {
+                Some(cmp_finite_to_inf(*b))
+            }
+            (NNumReal::Float(a), NNumReal::Rational(_)) if a.is_infinite() => {
+                Some(cmp_finite_to_inf(*a).reverse())
+            }
             (a, b) => a.exact_to_rational()?.partial_cmp(&b.exact_to_rational()?),
         }
     }
@@ -571,6 +587,12 @@ impl<'a> NNumReal<'a> {
             (NNumReal::Float(a), NNumReal::Float(b)) => {
                 a.partial_cmp(b).unwrap_or(b.is_nan().cmp(&a.is_nan()))
             } // note swap
+            (NNumReal::Rational(_), NNumReal::Float(b)) if b.is_infinite() => {
+                cmp_finite_to_inf(*b)
+            }
+            (NNumReal::Float(a), NNumReal::Rational(_)) if a.is_infinite() => {
+                cmp_finite_to_inf(*a).reverse()
+            }
             (a, b) => match (a.exact_to_rational(), b.exact_to_rational()) {
                 (Some(a), Some(b)) => a.cmp(&b),
                 _ => b.is_nan().cmp(&a.is_nan()),
@@ -587,6 +609,12 @@ impl<'a> NNumReal<'a> {
             }
             (NNumReal::Float(a), NNumReal::Float(b)) => {
                 a.partial_cmp(b).unwrap_or(a.is_nan().cmp(&b.is_nan()))
+            }
+            (NNumReal::Rational(_), NNumReal::Float(b)) if b.is_infinite() => {
+                cmp_finite_to_inf(*b)
+            }
+            (NNumReal::Float(a), NNumReal::Rational(_)) if a.is_infinite() => {
+                cmp_finite_to_inf(*a).reverse()
             }
             (a, b) => match (a.exact_to_rational(), b.exact_to_rational()) {
                 (Some(a), Some(b)) => a.cmp(&b),
